@@ -587,3 +587,20 @@ Definition collapse_witness : prog :=
 
 Definition cond_x_given (ev : state -> bool) (n : nat) : Qc :=
   cond_exp (run no_law collapse_witness n st0) ev (fun s => s "x").
+
+(* ---- more executable helpers for the harness (no theorem depends on them) ---- *)
+(* the same oracle for an arbitrary event "cond false" instead of the program's own guard
+   (used to attribute a mismatch to the guard Polar stored) *)
+Definition event_row (ev : cond) (ms : list mono) (d : dist state) : list (Z * positive) :=
+  qpair (prob d (fun s => negb (holds ev s)))
+  :: map (fun m => qpair (E d (fun s => ind (negb (holds ev s)) * eval_mono m s))) ms.
+Fixpoint event_moments_aux (vs : list var) (p : prog) (ev : cond) (ms : list mono) (d : dist state) (N : nat)
+  : list (list (Z * positive)) :=
+  event_row ev ms d ::
+  match N with O => [] | S N' => event_moments_aux vs p ev ms (compact vs (bind d (iter no_law p))) N' end.
+Definition event_moments (vs : list var) (p : prog) (ev : cond) (ms : list mono) (N : nat) : list (list (Z * positive)) :=
+  event_moments_aux vs p ev ms (compact vs (exec_block no_law (p_init p) st0)) N.
+
+(* two conditions agree on every listed valuation *)
+Definition conds_agree (envs : list (list (var * Qc))) (c1 c2 : cond) : bool :=
+  forallb (fun env => Bool.eqb (holds c1 (env_state env)) (holds c2 (env_state env))) envs.
